@@ -1374,6 +1374,18 @@ def _m_getattr(ctx, o, name, *default):
         raise
 
 
+class StaticMethodModel(object):
+    """staticmethod(f) / classmethod(f) applied to an interpreter callable at run time: only __func__ is modelled"""
+
+    def __init__(self, f):
+        self.__func__ = f
+
+
+@register(builtins.staticmethod)
+def _m_staticmethod(ctx, f):
+    return StaticMethodModel(f)
+
+
 @register(builtins.hasattr)
 def _m_hasattr(ctx, o, name):
     from .interp import get_attr, PyExc, exc_class
